@@ -17,7 +17,8 @@ EXPLANATION = (
     "DaughtersDict(...).to_string() = ' '.join(sorted(elements()))); C13.2 three-valued evaluation of format_descriptor: "
     "top ⇒ decay_pattern, not top ⇒ sub_decay_pattern; to_string starts with top=True on a fresh dictionary of the chain, "
     "the recursion uses top=False; mother/daughters are bound to the right placeholders; C13.3 the default nested pattern is "
-    "bracket-delimited and both defaults carry exactly the two placeholders.")
+    "bracket-delimited and both defaults carry exactly the two placeholders; C13.4 the dictionary the string is rendered from "
+    "expands a decaying daughter at every position where it occurs (shared with C11.2).")
 NOT_DECIDED = ["injectivity of the rendering for names that themselves contain parentheses and quotes (depends on the name tables): not applicable",
                "reading the string back (no parser for descriptors exists in the package)"]
 
@@ -30,6 +31,9 @@ def run(ctx, ss):
     ctx.guard("C13.2", c13_2, ss)
     ctx.guard("C13.2", lambda c, s: _as(c, s, c10_3, "C13.2"), ss)
     ctx.guard("C13.3", c13_3, ss)
+    # to_string renders self.to_dict(): every position of a repeated decaying daughter must be expanded there
+    from .c11 import c11_2
+    ctx.guard("C13.4", lambda c, s: _as(c, s, c11_2, "C13.4"), ss)
 
 
 def c13_1(ctx, ss):
